@@ -110,6 +110,16 @@ func (d *typeDictionary) findExternal(n Node, prefix, name string) (*Typedef, er
 	if td := d.find(root, name); td != nil {
 		return td, nil
 	}
+	// The typedefs of the submodules a module includes belong to the
+	// module, for importers as for the module itself.
+	for _, in := range root.Include {
+		if in.Module == nil {
+			continue
+		}
+		if td := d.find(in.Module, name); td != nil {
+			return td, nil
+		}
+	}
 	if prefix != "" {
 		name = prefix + ":" + name
 	}
